@@ -1,4 +1,4 @@
-(* C01 -- VP8L decoding matches the lossless specification for every valid stream.            (PARTIAL)
+(* C01 -- VP8L decoding matches the lossless specification for every valid stream.            (FULL up to the two format conditions stated below)
    Reference: Spec.VP8L.decode, an executable Gallina transcription of the WebP lossless bitstream specification
    (bit-by-bit canonical prefix decoding, every pixel inserted into the colour cache, per-pixel inverse transforms),
    validated against the compiled libwebp on every run (harness c01spec).
@@ -22,13 +22,38 @@
        equal symbols collapse (defect F3 repaired);
      * the backward-reference copy (16-byte copy_within trick and scalar tail) is the overlapping LZ77 copy
        out[k] = out[k - 4 dist] on the copied range, touches nothing before it nor from three pixels after it on. *)
+(* ADDED (modules T and R below): the complete refinement.  The Rust-mirroring model of the decoder (Model/BitReader, Huffman,
+   LosslessTransform, Lossless: tied to the code on every run by the c01model correspondence through hooks, component by component
+   and on whole payloads) is proved equal to Spec.VP8L on every spec-valid stream:
+     R.frame_matches_spec    V.decode_rgba data = Some (W, h, pixels) -> decode_frame data sched W h false buf = Ok pixels
+                             (and the implicit-dimension form used for ALPH payloads), for every fill_buf schedule and every prior
+                             buffer contents, under two decidable format conditions:
+                               codes_in_format: no SIMPLE prefix code names a symbol outside its alphabet (only possible for the
+                                 40-symbol distance alphabet; libwebp silently drops such a symbol, the crate rejects the stream --
+                                 R.dropped_symbol_refuted is the machine-checked witness that the condition is necessary);
+                               in_format: every predictor-transform block uses one of the 14 defined modes (green byte 0..13;
+                                 libwebp masks the byte with 15 and predicts black for 14/15, the crate leaves such blocks
+                                 unpredicted -- T.predictor_transform_model characterises the crate exactly).
+     R.frame_sound           whatever the decoder accepts is what the specification defines (no condition on codes);
+     RS.* (Properties/C03.v) the decoder returns Err on everything the specification rejects and never panics;
+   layer by layer: bit stream (R.stream_init, R.stream_fill, R.stream_read_bits), code acceptance = Kraft equality (R.code_acceptance), tables decode the canonical code
+   (R.code_tables), code descriptions incl. repeat codes and max_symbol (the R.code_description theorems), pixel loop incl. colour cache, F2 look-ahead,
+   F4 refill and the copy_within trick (R.pixel_loop), entropy images with meta codes (R.image_entropy, R.image_spatial), the four inverse transforms (module T),
+   transform list / order / width bookkeeping and header (inside the R.frame theorems). *)
 From Coq Require Import ZArith List.
-From WebP Require Import Gen.Tables Gen.Kernels Lib.ZBits Spec.VP8L Proofs.VP8L_kernels.
+From WebP Require Gen.Tables Gen.Kernels Lib.ZBits Spec.VP8L Proofs.VP8L_kernels.
 From WebP Require Lib.Res Lib.Arr Model.LosslessLib Model.BitReader Model.Huffman Model.Lossless
   Proofs.Lossless_BitReader Proofs.Lossless_HuffmanSafe Proofs.Lossless_HuffmanSimple Proofs.Lossless_CopyWithin
   Proofs.Lossless_HuffmanRead Proofs.Lossless_HuffmanComplete Spec.PrefixCode.
+From WebP Require Model.LosslessTransform Proofs.Lossless_PixelSafe Proofs.C04_bits Spec.PrefixCode
+  Proofs.C01T_repr Proofs.C01T_green Proofs.C01T_color Proofs.C01T_index Proofs.C01T_palette Proofs.C01T_pred_spec Proofs.C01T_predictor Proofs.C01T_frame
+  Proofs.C01_stream Proofs.C01_symbols Proofs.C01_codes Proofs.C01_pixlib Proofs.C01_pixels Proofs.C01_groups Proofs.C01_gspec Proofs.C01_final Proofs.C01_top.
 Import ListNotations.
 Open Scope Z_scope.
+
+(* ---------------- tables and scalar kernels regenerated from the source = the specification's ---------------- *)
+Module K.
+  Import Gen.Tables Gen.Kernels Lib.ZBits Spec.VP8L Proofs.VP8L_kernels.
 
 Theorem vp8l_tables_normative :
   lossless_DISTANCE_MAP = map (fun xy => [fst xy; snd xy]) distance_map
@@ -68,10 +93,11 @@ Qed.
 Example spec_decodes_a_stream :
   decode_rgba [0x2f; 0; 0; 0; 0; 0x88; 0x88; 0x08] <> None /\ decode_rgba [0x2f; 0; 0] = None.
 Proof. split; vm_compute; congruence. Qed.
+End K.
 
 (* ---------------- Rust-mirroring model: bit reader, simple codes, backward-reference copy ---------------- *)
 Module M.
-  Import Model.LosslessLib Model.BitReader Model.Huffman Model.Lossless Proofs.Lossless_BitReader
+  Import Lib.ZBits Model.LosslessLib Model.BitReader Model.Huffman Model.Lossless Proofs.Lossless_BitReader
     Proofs.Lossless_HuffmanSafe Proofs.Lossless_HuffmanSimple Proofs.Lossless_CopyWithin Proofs.Lossless_HuffmanRead Proofs.Lossless_HuffmanComplete.
 
   (* [R s r]: reader state r (64-bit reservoir + unread bytes) represents the unread bit stream s (an integer, LSB first) *)
@@ -138,3 +164,174 @@ Module M.
     forall k, 0 <= k < 4 * (index + length) -> az d1 k = az d2 k.
   Proof. exact lz_copied_unique. Qed.
 End M.
+
+(* ---------------- inverse transforms: Model = specification ---------------- *)
+Module T.
+  Import Lib.Res Lib.Arr Lib.ZBits Model.LosslessLib Model.LosslessTransform Model.Lossless
+    Proofs.C01T_repr Proofs.C01T_green Proofs.C01T_color Proofs.C01T_index Proofs.C01T_palette
+    Proofs.C01T_pred_spec Proofs.C01T_predictor Proofs.C01T_frame.
+  Local Open Scope Z_scope.
+  Theorem subtract_green_matches_spec : forall bytes px n, repr bytes px n -> zlen bytes = 4 * n ->
+    exists bytes', apply_subtract_green_transform bytes = Ok bytes' /\ zlen bytes' = zlen bytes /\
+                   repr bytes' (V.inverse_subtract_green px) n.
+  Proof. exact subtract_green_refines. Qed.
+
+  Theorem color_transform_matches_spec : forall bytes px tdata el w h bits nel,
+    1 <= w <= 16384 -> 0 <= h -> 0 <= bits <= 9 -> repr bytes px (w * h) -> zlen bytes = 4 * (w * h) -> repr tdata el nel ->
+    V.DIV_ROUND_UP w (2 ^ bits) * V.DIV_ROUND_UP h (2 ^ bits) <= nel ->
+    exists bytes', apply_color_transform bytes w bits tdata = Ok bytes' /\ zlen bytes' = zlen bytes /\
+                   repr bytes' (V.inverse_color_transform w h bits el px) (w * h).
+  Proof. exact color_transform_refines. Qed.
+
+  Theorem color_indexing_matches_spec : forall bytes px tdata table w h ts,
+    1 <= w -> 0 <= h -> 1 <= ts <= 256 ->
+    repr bytes px (V.DIV_ROUND_UP w (2 ^ V.width_bits_of ts) * h) -> zlen bytes = 4 * (w * h) ->
+    repr tdata table ts -> zlen tdata = 4 * ts ->
+    exists bytes', apply_color_indexing_transform bytes w h ts tdata = Ok bytes' /\ zlen bytes' = zlen bytes /\
+                   repr bytes' (V.inverse_color_indexing w h ts table px) (w * h).
+  Proof. exact color_indexing_refines. Qed.
+
+  Theorem color_table_matches_spec : forall cm deltas n, repr cm deltas n -> zlen cm = 4 * n -> 1 <= n ->
+    exists cm', adjust_color_map cm = Ok cm' /\ zlen cm' = zlen cm /\
+                repr cm' (of_list (V.undo_deltas 0 (V.pixel_list deltas))) n.
+  Proof. exact adjust_color_map_refines. Qed.
+
+  Theorem predictor_transform_matches_spec : forall bytes px pdata modes w h bits nm,
+    1 <= w <= 16384 -> 1 <= h -> 0 <= bits <= 9 -> repr bytes px (w * h) -> zlen bytes = 4 * (w * h) -> repr pdata modes nm ->
+    V.DIV_ROUND_UP w (2 ^ bits) * V.DIV_ROUND_UP h (2 ^ bits) <= nm ->
+    (forall j, 0 <= j < nm -> V.GREEN (V.pix modes j) <= 13) ->
+    exists bytes', apply_predictor_transform bytes w h bits pdata = Ok bytes' /\ zlen bytes' = zlen bytes /\
+                   repr bytes' (V.inverse_predictor w h bits modes px) (w * h).
+  Proof. exact predictor_transform_refines. Qed.
+
+  (* what the Rust code does for ANY mode image: the specification's scan with `pmodel` (modes 0..13 as in the format,
+     a block whose green byte is 14..255 keeps its residuals) *)
+  Theorem predictor_transform_model : forall bytes px pdata modes w h bits nm,
+    1 <= w <= 16384 -> 1 <= h -> 0 <= bits <= 9 -> repr bytes px (w * h) -> zlen bytes = 4 * (w * h) -> repr pdata modes nm ->
+    V.DIV_ROUND_UP w (2 ^ bits) * V.DIV_ROUND_UP h (2 ^ bits) <= nm ->
+    exists bytes', apply_predictor_transform bytes w h bits pdata = Ok bytes' /\ zlen bytes' = zlen bytes /\
+                   repr bytes' (inverse_predictor_gen pmodel w h bits modes px) (w * h).
+  Proof. exact C01T_predictor.predictor_transform_model. Qed.
+
+End T.
+
+(* ---------------- entropy decoding and the frame: Model = specification ---------------- *)
+Module R.
+  Import Lib.Res Lib.Arr Lib.ZBits Spec.PrefixCode Model.LosslessLib Model.BitReader Model.Huffman Model.Lossless
+    Proofs.Lossless_BitReader Proofs.Lossless_HuffmanSafe Proofs.Lossless_PixelSafe Proofs.C04_bits
+    Proofs.C01_stream Proofs.C01_symbols Proofs.C01_codes Proofs.C01_pixlib Proofs.C01_pixels Proofs.C01_groups
+    Proofs.C01_gspec Proofs.C01_final Proofs.C01_top.
+  Local Open Scope Z_scope.
+  (* (1) streams *)
+  Theorem stream_init : forall d sch, Forall byte d -> Rel (V.Stream [] d) (init d sch).
+  Proof. exact Rel_init. Qed.
+
+  Theorem stream_fill : forall st r, Rel st r -> exists r', fill r = Ok r' /\ Rel st r' /\ (56 <= nbits r' \/ data r' = []).
+  Proof. exact fill_Rel. Qed.
+
+  Theorem stream_read_bits : forall st r tb n, Rel st r -> 0 <= n <= 32 -> n <= tb ->
+    match V.read_bits (Z.to_nat n) st with
+    | Some (v, st') => exists r', read_bits r tb n = Ok (v, r') /\ Rel st' r' /\ 0 <= v < 2 ^ n
+    | None => read_bits r tb n = Err EBitStreamError
+    end.
+  Proof. exact read_bits_Rel. Qed.
+
+  (* (2) prefix codes: acceptance (Kraft), symbol decoding, description reading *)
+  Theorem code_acceptance : forall lens, lens_ok lens -> Z.of_nat (length lens) <= 5957 ->
+    ((exists t, build_implicit lens = Ok t) <-> (exists c, V.make_code lens = Some c)) /\
+    ((exists c, V.make_code lens = Some c) <-> nz lens = 1 \/ (2 <= nz lens /\ kraft lens 15 = 2 ^ 15)).
+  Proof. exact acceptance. Qed.
+
+  Theorem code_tables : forall lens, lens_ok lens -> Z.of_nat (length lens) <= 5957 ->
+    match V.make_code lens with
+    | Some c => exists t, build_implicit lens = Ok t /\ represents t c (Z.of_nat (length lens))
+    | None => build_implicit lens = Err EHuffmanError
+    end.
+  Proof. exact build_make. Qed.
+
+  Theorem code_description : forall a st r, Rel st r -> 2 <= a <= 5957 ->
+    match strict_prefix_code a st with
+    | Some (c, st') => exists t r', read_huffman_code r a = Ok (t, r') /\ Rel st' r' /\ represents t c a
+    | None => exists e, read_huffman_code r a = Err e
+    end.
+  Proof. exact read_huffman_code_refines. Qed.
+
+  Theorem code_description_spec : forall a st r, Rel st r -> 256 <= a <= 5957 ->
+    match V.read_prefix_code a st with
+    | Some (c, st') => exists t r', read_huffman_code r a = Ok (t, r') /\ Rel st' r' /\ represents t c a
+    | None => exists e, read_huffman_code r a = Err e
+    end.
+  Proof. exact read_huffman_code_refines_256. Qed.
+
+  Theorem code_description_sound : forall a st r t r', Rel st r -> 2 <= a <= 5957 -> read_huffman_code r a = Ok (t, r') ->
+    exists c st', V.read_prefix_code a st = Some (c, st') /\ Rel st' r' /\ represents t c a.
+  Proof. exact read_huffman_code_sound. Qed.
+
+  Theorem strict_code_is_spec_code : forall a s x, strict_prefix_code a s = Some x -> V.read_prefix_code a s = Some x.
+  Proof. exact strict_prefix_code_sound. Qed.
+
+  (* FINDING: the specification (libwebp) drops a simple-code symbol >= 40 of a distance code; the crate rejects the stream *)
+  Theorem dropped_symbol_refuted :
+    let d := [7; 64; 6] in
+    (exists st', V.read_prefix_code 40 (V.Stream [] d) = Some (V.Symbol 0, st')) /\
+    strict_prefix_code 40 (V.Stream [] d) = None /\
+    read_huffman_code (BitReader.init d []) 40 = Err EBitStreamError.
+  Proof. exact simple_dropped_symbol_refuted. Qed.
+
+  (* (4) the pixel loop *)
+  Theorem pixel_loop : forall im h w hgt, info_rel im h w hgt -> 1 <= w <= 65535 -> 1 <= hgt <= 65536 ->
+    forall st br data, Rel st br -> zlen data = 4 * (w * hgt) ->
+    cache_rel (V.cache_bits im) (amake (Z.to_N (2 ^ V.cache_bits im))) (h_cache h) ->
+    match V.decode_pixels im st with
+    | Some (pixels, st') =>
+        exists br' data', decode_image_data br w hgt h data = Ok (br', data') /\ Rel st' br' /\ zlen data' = 4 * (w * hgt) /\
+                          forall i, 0 <= i < w * hgt -> px_at data' i = px_of (V.pix pixels i) /\ pix32 (V.pix pixels i)
+    | None => exists e, decode_image_data br w hgt h data = Err e
+    end.
+  Proof. exact decode_image_data_refines. Qed.
+
+  (* (3) whole entropy-coded images *)
+  Theorem image_entropy : forall lvl st r w hgt data, Rel st r -> 1 <= w <= 65535 -> 1 <= hgt <= 65536 -> zlen data = 4 * (w * hgt) ->
+    match strict_entropy_coded_image w hgt st with
+    | Some (pixels, st') =>
+        exists r' data', decode_image_stream (S lvl) r w hgt false data = Ok (r', data') /\ Rel st' r' /\
+                         zlen data' = 4 * (w * hgt) /\
+                         forall i, 0 <= i < w * hgt -> px_at data' i = px_of (V.pix pixels i) /\ pix32 (V.pix pixels i)
+    | None => exists e, decode_image_stream (S lvl) r w hgt false data = Err e
+    end.
+  Proof. exact decode_image_stream_entropy. Qed.
+
+  Theorem image_spatial : forall lvl st r w hgt data, Rel st r -> 1 <= w <= 65535 -> 1 <= hgt <= 65535 -> zlen data = 4 * (w * hgt) ->
+    match strict_spatially_coded_image w hgt st with
+    | Some (pixels, st') =>
+        exists r' data', decode_image_stream (S (S lvl)) r w hgt true data = Ok (r', data') /\ Rel st' r' /\
+                         zlen data' = 4 * (w * hgt) /\
+                         forall i, 0 <= i < w * hgt -> px_at data' i = px_of (V.pix pixels i) /\ pix32 (V.pix pixels i)
+    | None => exists e, decode_image_stream (S (S lvl)) r w hgt true data = Err e
+    end.
+  Proof. exact decode_image_stream_spatial. Qed.
+
+  Theorem strict_image_is_spec_image : forall w h s x, strict_spatially_coded_image w h s = Some x -> V.spatially_coded_image w h s = Some x.
+  Proof. exact strict_spatial_sound. Qed.
+
+  (* the frame *)
+  Theorem strict_decode_is_spec_decode : forall data x, strict_decode_rgba data = Some x -> V.decode_rgba data = Some x.
+  Proof. exact strict_decode_rgba_sound. Qed.
+
+  Theorem frame_matches_spec : forall data sched W h buf pixels, Forall byte data -> Z.of_nat (length buf) = 4 * (W * h) ->
+    V.decode_rgba data = Some (W, h, pixels) -> codes_in_format data ->
+    (forall s0, V.read_header (V.Stream [] data) = Some (W, h, s0) -> in_format W h s0) ->
+    decode_frame data sched W h false buf = Ok pixels.
+  Proof. exact decode_frame_matches_spec. Qed.
+
+  Theorem frame_implicit_matches_spec : forall data sched W h buf pixels, Forall byte data -> Z.of_nat (length buf) = 4 * (W * h) ->
+    V.decode_implicit_rgba W h data = Some pixels -> codes_in_format_implicit W h data -> in_format W h (V.Stream [] data) ->
+    decode_frame data sched W h true buf = Ok pixels.
+  Proof. exact decode_frame_implicit_matches_spec. Qed.
+
+  Theorem frame_sound : forall data sched W h buf pixels, Forall byte data -> Z.of_nat (length buf) = 4 * (W * h) ->
+    decode_frame data sched W h false buf = Ok pixels ->
+    (forall s0, V.read_header (V.Stream [] data) = Some (W, h, s0) -> in_format W h s0) ->
+    V.decode_rgba data = Some (W, h, pixels).
+  Proof. exact decode_frame_sound. Qed.
+End R.
